@@ -279,7 +279,10 @@ def conforms(v, spec, why=None, inst_check=None):
             if constraints.holds("const", vals[0], v):
                 return True
         elif constraints.holds("enum", vals, v):
-            # Literal[a, b, ...] is the enum constraint: membership (Python `in`)
+            # Literal[a, b, ...] is the enum constraint: membership (Python `in`) - and the source type is the type of a value
+            # (1.0 == 1, but a float is no instance of the declared Literal[1, 'a'])
+            if not isinstance(v, tuple({type(m) for m in vals})):
+                return no(f"lit/equal-to-a-value-but-of-no-value's-type:{type(v).__name__}")
             return True
         return no(f"lit/not-a-literal:{type(v).__name__}")
     if k == "enum":
